@@ -209,11 +209,24 @@ func runC14(c *fw.Case) {
 			c.ViolateD("C14/beginblock-panic", map[string]interface{}{"config": a.describe(), "schedule": sched.label, "stack": obsA.panicked.Stack}, "distributor BeginBlocker panicked under faults in block %d: %s", a.block, short(obsA.panicked.Value, 300))
 			return
 		}
+		if c.Property == "C18" {
+			// C18 looks at the events first: a later check may end the case
+			a.checkEvents(c, obsA, "C18")
+			if c.NViol() > 0 {
+				return
+			}
+		}
 		a.checkBooks(c, obsA, "C14")
 		if c.NViol() > 0 {
 			return
 		}
 		a.checkModel(c, obsA, "C14")
+		if c.NViol() > 0 {
+			return
+		}
+		// what the events of the block report must be what the model - which knows the
+		// failures of this block - assigned (kept by C18's fault-injection cases)
+		a.checkEvents(c, obsA, "C18")
 		if c.NViol() > 0 {
 			return
 		}
